@@ -935,6 +935,16 @@ func ClassifyErr(fn *ssa.Function, v ssa.Value, at *ssa.BasicBlock) RetClass {
 		if isErrConstructor(x) {
 			return RetFail
 		}
+		// github.com/pkg/errors wrappers return nil exactly when their error
+		// argument is nil
+		if o := CalleeObj(x); o != nil && o.Pkg() != nil && o.Pkg().Path() == "github.com/pkg/errors" {
+			switch o.Name() {
+			case "WithStack", "Wrap", "Wrapf", "WithMessage", "WithMessagef":
+				if len(x.Common().Args) > 0 {
+					return ClassifyErr(fn, x.Common().Args[0], at)
+				}
+			}
+		}
 	}
 	if knownNonNil(fn, v, at) {
 		return RetFail
